@@ -122,12 +122,13 @@ def load_known():
 # ------------------------------------------------------------------------------------------- scenario / ctx
 class Scenario:
     def __init__(self, name, path, bounds=None, domains=(), frontier=5, replay_cap=150, must_reach=("assert",),
-                 engine_opts=None, workers=16, assumptions=(), prepare=None, path_budget=24):
+                 engine_opts=None, workers=16, assumptions=(), prepare=None, path_budget=24, time_budget_s=None):
         self.name, self.path, self.bounds = name, path, dict(bounds or {})
         self.domains, self.frontier, self.replay_cap = tuple(domains), frontier, replay_cap
         self.must_reach, self.engine_opts, self.workers = tuple(must_reach), dict(engine_opts or {}), workers
         self.assumptions = list(assumptions)
         self.path_budget = path_budget
+        self.time_budget_s = time_budget_s      # wall-clock cap of the scenario (default: 600 s quick / 2400 s thorough); exceeding it is inconclusive
         self.prepare = prepare       # optional callable run once in the parent after injection (returns extra state)
 
 
@@ -363,7 +364,17 @@ def _explore(scen, prop, seed, known, stop_flag, roots, frontier_depth=None, pat
     for hook in _JOB.get("engine_hooks", []):
         hook(eng)
     eng.on_path_end = ctx.end_path
-    eng.stop = (lambda: stop_flag.value != 0) if stop_flag is not None else None
+    deadline = _JOB.get("deadline")
+
+    def should_stop():
+        if stop_flag is not None and stop_flag.value != 0:
+            return True
+        if deadline is not None and time.time() > deadline:
+            if "scenario time budget exhausted" not in eng.limits:
+                eng.limits.append("scenario time budget exhausted")
+            return True
+        return False
+    eng.stop = should_stop
     eng.frontier_depth = frontier_depth
 
     def run(e):
@@ -396,7 +407,8 @@ def _worker(args):
 def run_scenario(scen, prop, seed, known, engine_hooks=()):
     t0 = time.time()
     stop = mp.get_context("fork").Value("i", 0)
-    _JOB.update(scen=scen, prop=prop, seed=seed, known=known, stop=stop, engine_hooks=list(engine_hooks))
+    budget = scen.time_budget_s or (600 if os.environ.get("VERIF_TIER_EFFECTIVE", "quick") == "quick" else 2400)
+    _JOB.update(scen=scen, prop=prop, seed=seed, known=known, stop=stop, engine_hooks=list(engine_hooks), deadline=t0 + budget)
     first = _explore(scen, prop, seed, known, stop, None, frontier_depth=scen.frontier if scen.workers > 1 else None)
     results = [first]
     roots = first.pop("frontier")
@@ -515,6 +527,7 @@ def run_check(prop, level, scenarios, tier, *, technique, assumptions=(), outsid
     {"name","status":"unsat"|"sat"|"unknown","solver_s", "second": ...} discharged by direct solver queries."""
     from . import inject
     seed = int(os.environ.get("VERIF_SEED", "0") or 0)
+    os.environ["VERIF_TIER_EFFECTIVE"] = tier
     t0 = time.time()
     known = load_known()
     _monitor_on()
